@@ -86,6 +86,12 @@ var escapeAtoms = []string{
 	"\\\\", "\\\"", "\\n", "\\x", "g", "a", "$", "{",
 }
 
+// number alphabet: the pieces of a number literal with exponents on both sides of what a
+// 32-bit exponent holds (big.Float's limit) and far beyond, in JSON and in the native syntax.
+var numberAtoms = []string{
+	"1", "0", "-", "e", "E", "+", ".", "5", "2147483647", "2147483648", "9999999999", "99999999999999999999",
+}
+
 func concat(a, b []string) []string {
 	out := make([]string, 0, len(a)+len(b))
 	out = append(out, a...)
